@@ -102,6 +102,28 @@ def gen_case(r, cid, cls, uni=False):
         if r.random() < 0.5:
             ops += [["set", hx(r.choice(pool)), hx(b"v2")], ["flush"], ["split", hx(r.choice([b"k0", b"k15", b"k55", b"k75"]))], ["bget", [hx(x) for x in pool]]]
         return {"id": cid, "class": cls, "mode": "txn", "splits": [hx(x) for x in splits], "pre": pre, "ops": ops, "end": end, "settle_ms": 2500}
+    if cls == "flags":
+        # presumeKeyNotExists on fresh keys: Op_Insert; inserted and deleted in the same generation: Op_CheckNotExists (no lock);
+        # the smallest key of the first generation is such a key, so the primary must be the next one
+        pool = KEYS[:10]
+        prekeys = {bytes.fromhex(k) for k, _ in pre}
+        fresh = [k for k in pool if k not in prekeys]
+        splits = sorted(set(r.sample(pool[1:], r.randrange(0, 3))))
+        a = fresh[0]
+        ops = [["insert", hx(a), hx(b"ia")], ["del", hx(a)]]
+        used = {a}
+        for k in r.sample(fresh[1:], min(len(fresh) - 1, r.randrange(1, 4))):
+            used.add(k)
+            ops.append(["insert", hx(k), hx(b"i" + k)])
+            if r.random() < 0.3:
+                ops.append(["del", hx(k)])
+        plain = [k for k in pool if k not in used]
+        for k in r.sample(plain, min(len(plain), r.randrange(0, 4))):     # none at all: a first generation of CheckNotExists only has
+            ops.append(["set", hx(k), hx(b"s" + k)])                       # no primary and is refused by the client (observation O1)
+        ops += [["get", hx(a)], ["flush"], ["get", hx(a)], ["bget", [hx(x) for x in pool[:6]]]]
+        if r.random() < 0.6:
+            ops += [["set", hx(a), hx(b"again")], ["flush"], ["get", hx(a)]]
+        return {"id": cid, "class": cls, "mode": "txn", "splits": [hx(x) for x in splits], "pre": pre, "ops": ops, "end": end, "settle_ms": 2500}
     if cls in ("dynresolve", "insert", "primary", "crash"):
         pool = KEYS[:10]
         splits = sorted(set(r.sample(pool[1:], r.randrange(0, 4))))
@@ -192,14 +214,23 @@ def reference(case):
     inject = bool(case.get("fail_flush_from"))
     truth, reads, operr = {}, [], []
     gens, sent, cur, cur_ins = {}, [], {}, set()
+    gops = {}     # generation -> {key: op} with the flush callback's table (Put 0, Del 1, Insert 4, CheckNotExists 6)
     failed = False
+    state = {"primary_set": False}
 
     def do_flush():
         nonlocal cur, cur_ins, failed
         g = len(gens) + 1
         gens[g] = cur
+        gops[g] = {k: ((4 if k in cur_ins else 0) if val else (6 if k in cur_ins else 1)) for k, val in cur.items()}
         if not failed and cur:
             sent.append(g)
+            # observation O1: while no primary is chosen, a generation without any lock-writing mutation is refused by the
+            # client ("primary key should be set before pipelined flush"): a clean failure of the transaction
+            if any(o != 6 for o in gops[g].values()):
+                state["primary_set"] = True
+            elif not state["primary_set"]:
+                failed = True
         if not failed and any(k in pre for k in cur_ins):
             failed = True
         cur, cur_ins = {}, set()
@@ -248,7 +279,7 @@ def reference(case):
             final[k] = val
     keys = set(pre) | set(truth)
     return {"reads": reads, "operr": operr, "enderr": enderr, "final": {k: final.get(k) for k in keys}, "gens": gens,
-            "sent": sent, "failed": failed, "inject": inject, "final_checked": not (inject and case["end"] == "commit")}
+            "sent": sent, "gops": gops, "failed": failed, "inject": inject, "final_checked": not (inject and case["end"] == "commit")}
 
 
 def model_lines(case, ref, res=None):
@@ -257,6 +288,7 @@ def model_lines(case, ref, res=None):
     L = ["CASE\t%s\t0\t0\t0" % case["id"]]
     cmpr = not ref["inject"]
     failed, cur_ins, pre = False, set(), {k for k, _ in case["pre"]}
+    mcur, mstate = {}, {"p": False}
     # keep-alive state observed after every flush op (compared with the model's tmrun), and at the flush the store rejected
     rs = (res or {}).get("results") or []
     tms = [r.get("ttl_running") for o, r in zip(case["ops"], rs) if o[0] == "flush"] if case["mode"] == "txn" else []
@@ -267,8 +299,10 @@ def model_lines(case, ref, res=None):
 
     def fl(wait):
         nonlocal failed, cur_ins
-        rejects = (not failed) and any(k in pre for k in cur_ins)
-        cur_ins = set()
+        rejects = (not failed) and (any(k in pre for k in cur_ins) or (bool(mcur) and not mstate["p"] and all(k in cur_ins and not val for k, val in mcur.items())))
+        if not failed and any(not (k in cur_ins and not val) for k, val in mcur.items()):
+            mstate["p"] = True
+        cur_ins = set(); mcur.clear()
         L.append("OP\tflush\t1\t0\t1")
         if rejects:
             failed = True
@@ -284,11 +318,13 @@ def model_lines(case, ref, res=None):
             L.append("OP\tcomplete\t0")
     for op in case["ops"]:
         if op[0] in ("set", "insert"):
-            L.append("OP\tset\t%s\t%s" % (op[1], op[2]))
+            L.append("OP\t%s\t%s\t%s" % (op[0], op[1], op[2]))
+            mcur[op[1]] = op[2]
             if op[0] == "insert":
                 cur_ins.add(op[1])
         elif op[0] == "del":
             L.append("OP\tdel\t%s" % op[1])
+            mcur[op[1]] = ""
         elif op[0] == "flush":
             fl(True)
         elif op[0] == "flushnw":
@@ -365,6 +401,11 @@ def audit(case, res, model, kind, v, stats):
                 fails.append(("C16_flush_once/rpc-generation", "Flush RPC with generation %s carries %s; flush %s of the buffer held %s (generations of the buffer flushes: %s)"
                               % (f["gen"], bad[:3], f["gen"], exp, sorted(gens))))
             seen_g.setdefault(f["gen"], {}).update({k: val for k, val in f["muts"]})
+            if f.get("ops") and exp is not None and not bad:
+                n += 1
+                wrong = [(kv[0], o, ref["gops"][f["gen"]].get(kv[0])) for kv, o in zip(f["muts"], f["ops"]) if ref["gops"][f["gen"]].get(kv[0]) != o]
+                if wrong:
+                    fails.append(("C16_flush_ops", "Flush RPC of generation %s: (key, op sent, op expected from the flags) %s" % (f["gen"], wrong[:3])))
         recs = [(f["gen"], frozenset(map(tuple, f["muts"]))) for f in res.get("flushes") or []]
         if any(m2 < m1 for i, (g1, m1) in enumerate(recs) for (g2, m2) in recs[i + 1:]):
             stats[kind + "_cases_with_regrouped_flush_batch"] = stats.get(kind + "_cases_with_regrouped_flush_batch", 0) + 1
@@ -390,7 +431,8 @@ def audit(case, res, model, kind, v, stats):
                 fails.append(("C16_read_latest/rpc-kind", "snapshot-tier Get/BatchGet at the transaction's start ts asked for keys it has already flushed (must be read through BufferBatchGet): %s" % sorted(set(res["snapshot_reads_of_flushed"]))))
         if res.get("primary") is not None:
             # keep-alive of the primary lock runs once the primary is flushed, and stops with the transaction
-            first = ref["sent"][0] if ref["sent"] else None
+            lockable = lambda g: sorted((k for k in gens[g] if ref["gops"][g][k] != 6), key=bytes.fromhex)
+            first = next((g for g in ref["sent"] if lockable(g)), None)
             g = 0
             for op, r in zip(case["ops"], res.get("results", [])):
                 if op[0] in ("flush", "flushnw"):
@@ -401,15 +443,15 @@ def audit(case, res, model, kind, v, stats):
                             fails.append(("ttl-keepalive", "after flush %d (primary flushed in generation %d) the ttl manager is not running" % (g, first)))
                     if op[0] == "flush" and first is not None and not ref["inject"] and r.get("lock_primaries") is not None:
                         n += 1
-                        if not set(r["lock_primaries"]) <= {min(gens[first], key=bytes.fromhex)}:
-                            fails.append(("C16_crash_recoverable/primary", "after flush %d the transaction's locks point to primaries %s, the primary is %s" % (g, r["lock_primaries"], min(gens[first], key=bytes.fromhex))))
+                        if not set(r["lock_primaries"]) <= {lockable(first)[0]}:
+                            fails.append(("C16_crash_recoverable/primary", "after flush %d the transaction's locks point to primaries %s, the primary is %s" % (g, r["lock_primaries"], lockable(first)[0])))
             n += 1
             if res.get("ttl_running_end"):
                 fails.append(("ttl-keepalive", "ttl manager still running after " + case["end"]))
             # primary = smallest key of the first generation that is sent; it never changes
             if first is not None and not ref["inject"]:
                 n += 1
-                exp_primary = min(gens[first], key=bytes.fromhex)
+                exp_primary = lockable(first)[0]
                 if res.get("primary") != exp_primary:
                     fails.append(("C16_crash_recoverable/primary", "primary key %s, first flushed key is %s" % (res.get("primary"), exp_primary)))
     # every flushed key lies in a region that answered a ResolveLock (layout may change while the resolve runs)
@@ -529,7 +571,7 @@ def run(tier, seed, v, stats, robj):
         kinds = [robj["driver"].split("-")[-1]]
     else:
         n = {"quick": 420, "thorough": 1500}.get(tier, 420)
-        classes = ["single", "border", "rand", "grow", "probe", "regroup", "regroup", "dynresolve", "dynresolve", "insert", "primary", "crash", "bgetsplit", "bgetsplit"]
+        classes = ["single", "border", "rand", "grow", "probe", "regroup", "regroup", "dynresolve", "dynresolve", "insert", "primary", "crash", "bgetsplit", "bgetsplit", "flags"]
         cases = json.load(open(os.path.join(vlib.VERIF, "corpus", "C16", "directed_commit.json")))
         cases += [with_cancel(r, gen_case(r, "m%d-%d" % (seed, i), classes[i % len(classes)])) for i in range(n)]
         kinds = ["mock"] + (["uni"] if tier == "thorough" else [])
@@ -579,7 +621,7 @@ def run_unistore(tier, seed, v, stats, robj, r):
     if robj and robj.get("driver") == "pipelinedtxn-uni":
         cases = [robj["case"]]
     else:
-        classes = ["single", "border", "rand", "grow", "regroup", "regroup", "dynresolve", "insert", "primary", "crash", "bgetsplit"]
+        classes = ["single", "border", "rand", "grow", "regroup", "regroup", "dynresolve", "insert", "primary", "crash", "bgetsplit", "flags"]
         cases = [with_cancel(r, gen_case(r, "u%d-%d" % (seed, i), classes[i % len(classes)], uni=True)) for i in range(330)]
         for c in cases:   # the unistore cluster handle offers no merge
             if c.get("resolve_changes"):
